@@ -112,6 +112,13 @@ func VC08Script(bp, k, ints int) {
 			c2.Interrupt = NMIInterrupt()
 		}
 	}
+	if ints == 2 {
+		// a maskable request is pending at entry; IM (any int) and IFF1 are arbitrary,
+		// so it may be accepted, refused, or never consumable
+		d1.shapes, d2.shapes = 3, 3
+		c1.Interrupt = IM1Interrupt()
+		c2.Interrupt = IM1Interrupt()
+	}
 	if bp == 1 {
 		c1.BreakPoints = vMapU16Set("bp", 2)
 		c2.BreakPoints = vMapU16Set("bp", 2)
